@@ -19,7 +19,8 @@ from ..sched import LineScheduler
 from ..simfs import SimFS, Policy
 
 KWS = [{}, {"engine": "normal"}, {"mnemonic_case": "preserve"}, {"null_policy": "none"}, {"ignore_header_errors": True},
-       {"mnemonic_case": "lower", "engine": "normal"}, {"null_policy": "common"}, {"read_policy": []}, {"ignore_data": True}]
+       {"mnemonic_case": "lower", "engine": "normal"}, {"null_policy": "common"}, {"read_policy": []}, {"ignore_data": True}, {"index_unit": "ft"}, {"index_unit": "m", "engine": "normal"},
+       {"null_policy": "aggressive"}, {"accept_regexp_sub_recommendations": False}, {"use_normal_engine_for_wrapped": False}]
 LATIN = ["Åsgard Ølje", "Société Générale", "Müller & Söhne", "Peña Nieto S.A.", "£ ± µ ¿ ß"]
 WIDE = ["Нефть и газ", "井戸 検層", "𝒲ell 𝓛og 😀", "Ελληνικά", "Łódź Żółć", "para\u2028graph sep", "line\u2029sep"]
 ODDSEP = ["next\x85line", "form\x0cfeed", "vt\x0btab", "fs\x1cgs\x1drs\x1e", "nbsp\xa0here", "soft\xadhyphen"]   # str.splitlines() boundaries
